@@ -199,12 +199,19 @@ func (c *SpecCtx) objVal(obj types.Object) *Val {
 }
 
 func (c *SpecCtx) importedPkg(name string) *types.Package {
-	if c.pkg == nil {
-		return nil
+	if c.pkg != nil {
+		for _, imp := range c.pkg.Imports() {
+			if imp.Name() == name {
+				return imp
+			}
+		}
 	}
-	for _, imp := range c.pkg.Imports() {
-		if imp.Name() == name {
-			return imp
+	// an extern's clauses are written in the contract file of the package under verification
+	if cc := c.x.curCon; cc != nil && cc.Fn != nil && cc.Fn.Pkg != nil {
+		for _, imp := range cc.Fn.Pkg.Pkg.Imports() {
+			if imp.Name() == name {
+				return imp
+			}
 		}
 	}
 	// also allow referring to any loaded package by its name
